@@ -28,6 +28,8 @@ inductive Op
   | editMax (k : Key2) (n : Int)
   /-- the run object of a *completed* Trial is removed by someone else (TTL after finish, user clean-up) -/
   | jobGone (k : Key2)
+  /-- the user (or the garbage collector of a deleted Experiment) deletes a Trial: with a finalizer it is only marked -/
+  | userDelete (k : Key2)
   | noop
   deriving Repr
 
@@ -110,6 +112,13 @@ def stepWorld (s : Sim) (op : Op) : World × String :=
     | some t =>
       if tCompleted t && (findJob s.cur k).isSome then ({ s.cur with jobs := s.cur.jobs.filter (fun j => ¬ j.key = k) }, "ok=1")
       else (s.cur, "ok=0")
+  | .userDelete k =>
+    match findTrial s.cur k with
+    | none => (s.cur, "ok=0")
+    | some t =>
+      if t.deleted then (s.cur, "ok=0")
+      else if t.fin then (updTrial s.cur k (fun t => { t with deleted := true, rv := t.rv + 1 }), "ok=1")
+      else ({ s.cur with trials := s.cur.trials.filter (fun t => ¬ t.key = k) }, "ok=1")
   | .noop => (s.cur, "ok=1")
 
 def step (s : Sim) (op : Op) : Sim × String :=
